@@ -155,27 +155,64 @@ func C06(c *core.Ctx) {
 		pinfo := pfd.Pkg.TypesInfo
 		in := pfd.Obj.Type().(*types.Signature).Params().At(0)
 		calls := core.CallsTo(pinfo, pfd.Decl.Body, func(f *types.Func) bool { return f.Name() == "AmountFromString" })
-		okDel := len(calls) == 1 && core.VarOf(pinfo, calls[0].Args[0]) == in
-		// the only re-assignments of the input strip exactly one trailing character under a `== "%"` test
-		okStrip := true
 		ld := core.NewLocalDefs(pinfo, pfd.Decl.Body)
+		// "the input minus at most one trailing %": the input itself, strings.TrimSuffix(input, "%"),
+		// input[:len-1] under a test that the last character is "%", or a local holding one of these
+		isTrimOne := func(e ast.Expr) bool {
+			cl, ok := ast.Unparen(e).(*ast.CallExpr)
+			if !ok || len(cl.Args) != 2 {
+				return false
+			}
+			fn := core.Callee(pinfo, cl)
+			if fn == nil || fn.Pkg() == nil || fn.Pkg().Path() != "strings" || fn.Name() != "TrimSuffix" {
+				return false
+			}
+			sfx, ok := foldString(pinfo, cl.Args[1])
+			return ok && sfx == "%" && core.VarOf(pinfo, cl.Args[0]) == in
+		}
+		okStrip := true
 		for _, d := range ld.All(in) {
-			se, isSlice := ast.Unparen(d.RHS).(*ast.SliceExpr)
-			if d.RHS == nil || !isSlice || core.VarOf(pinfo, se.X) != in || se.Low != nil {
+			if d.RHS == nil {
 				okStrip = false
 				continue
 			}
-			conds := enclosingConds(pfd.Decl.Body, d.Stmt)
+			if isTrimOne(d.RHS) {
+				continue
+			}
+			se, isSlice := ast.Unparen(d.RHS).(*ast.SliceExpr)
+			if !isSlice || core.VarOf(pinfo, se.X) != in || se.Low != nil {
+				okStrip = false
+				continue
+			}
 			pct := false
-			for _, cnd := range conds {
+			for _, cnd := range enclosingConds(pfd.Decl.Body, d.Stmt) {
 				if be, ok := ast.Unparen(cnd).(*ast.BinaryExpr); ok && be.Op == token.EQL {
 					if s, ok := foldString(pinfo, be.Y); ok && s == "%" {
 						pct = true
 					}
 				}
+				if cl, ok := ast.Unparen(cnd).(*ast.CallExpr); ok && len(cl.Args) == 2 {
+					if fn := core.Callee(pinfo, cl); fn != nil && fn.Pkg() != nil && fn.Pkg().Path() == "strings" && fn.Name() == "HasSuffix" {
+						if s, ok := foldString(pinfo, cl.Args[1]); ok && s == "%" {
+							pct = true
+						}
+					}
+				}
 			}
 			if !pct {
 				okStrip = false
+			}
+		}
+		okDel := len(calls) > 0
+		for _, call := range calls {
+			arg := ast.Unparen(call.Args[0])
+			if v := core.VarOf(pinfo, arg); v != nil && v != in {
+				if ds := ld.All(v); len(ds) == 1 && ds[0].RHS != nil {
+					arg = ast.Unparen(ds[0].RHS)
+				}
+			}
+			if core.VarOf(pinfo, arg) != in && !isTrimOne(arg) {
+				okDel = false
 			}
 		}
 		c.Ob("C06-R2", pfd.Name()+"#delegates", pfd.Decl.Pos(), okDel && okStrip,
@@ -222,50 +259,98 @@ func C06(c *core.Ctx) {
 	if qfd := p.Func("num", "", "unquote"); qfd != nil {
 		qinfo := qfd.Pkg.TypesInfo
 		v := qfd.Obj.Type().(*types.Signature).Params().At(0)
-		// the stripping assignment must be under len(value) > 2 (or >= 3) && both quotes
-		okQ := false
-		ast.Inspect(qfd.Decl.Body, func(n ast.Node) bool {
-			is, ok := n.(*ast.IfStmt)
-			if !ok {
-				return true
-			}
-			minLen, q0, q1 := 0, false, false
-			ast.Inspect(is.Cond, func(m ast.Node) bool {
-				be, ok := m.(*ast.BinaryExpr)
-				if !ok {
-					return true
+		// decided by finite abstract evaluation over (length 0..4, first byte is a quote, last byte is a
+		// quote): the result is the inner slice exactly when length >= 3 and both are quotes, the input
+		// unchanged otherwise, and no index is evaluated outside the input
+		okQ := true
+		rows := 0
+		for L := int64(0); L <= 4 && okQ; L++ {
+			for q := 0; q < 4 && okQ; q++ {
+				q0, q1 := q&1 != 0, q&2 != 0
+				if L == 1 && q0 != q1 {
+					continue // one byte is both first and last
 				}
-				if cl, ok := ast.Unparen(be.X).(*ast.CallExpr); ok {
-					if id, ok := cl.Fun.(*ast.Ident); ok && id.Name == "len" && core.VarOf(qinfo, cl.Args[0]) == v {
-						if tv, ok := qinfo.Types[be.Y]; ok && tv.Value != nil {
-							k, _ := constant.Int64Val(tv.Value)
-							switch be.Op {
-							case token.GTR:
-								minLen = int(k) + 1
-							case token.GEQ:
-								minLen = int(k)
-							}
+				if L == 0 && q != 0 {
+					continue
+				}
+				ev := &core.AbsEval{Info: qinfo}
+				ev.Set(v, "orig")
+				oob := false
+				ev.Atom = func(e ast.Expr) (any, bool) {
+					e = ast.Unparen(e)
+					switch x := e.(type) {
+					case *ast.CallExpr:
+						if id, ok := x.Fun.(*ast.Ident); ok && id.Name == "len" && len(x.Args) == 1 && core.VarOf(qinfo, x.Args[0]) == v {
+							return L, true
 						}
-					}
-				}
-				if be.Op == token.EQL {
-					if ix, ok := ast.Unparen(be.X).(*ast.IndexExpr); ok && core.VarOf(qinfo, ix.X) == v {
-						if tv, ok := qinfo.Types[be.Y]; ok && tv.Value != nil && tv.Value.ExactString() == "34" {
-							if itv, ok := qinfo.Types[ix.Index]; ok && itv.Value != nil && itv.Value.ExactString() == "0" {
-								q0 = true
-							} else {
-								q1 = true
-							}
+					case *ast.IndexExpr:
+						if core.VarOf(qinfo, x.X) != v {
+							return nil, false
 						}
+						iv, ok := ev.Eval(x.Index)
+						idx, isN := iv.(int64)
+						if !ok || !isN {
+							return nil, false
+						}
+						if idx < 0 || idx >= L {
+							oob = true
+							return nil, false
+						}
+						quote := (idx == 0 && q0) || (idx == L-1 && q1)
+						if idx != 0 && idx != L-1 {
+							return int64('x'), true
+						}
+						if quote {
+							return int64('"'), true
+						}
+						return int64('x'), true
+					case *ast.SliceExpr:
+						if core.VarOf(qinfo, x.X) != v {
+							return nil, false
+						}
+						lo, hi := int64(0), L
+						if x.Low != nil {
+							lv, ok := ev.Eval(x.Low)
+							n, isN := lv.(int64)
+							if !ok || !isN {
+								return nil, false
+							}
+							lo = n
+						}
+						if x.High != nil {
+							hv, ok := ev.Eval(x.High)
+							n, isN := hv.(int64)
+							if !ok || !isN {
+								return nil, false
+							}
+							hi = n
+						}
+						if lo < 0 || hi > L || lo > hi {
+							oob = true
+							return nil, false
+						}
+						if lo == 1 && hi == L-1 {
+							return "inner", true
+						}
+						if lo == 0 && hi == L {
+							return "orig", true
+						}
+						return "other", true
 					}
+					return nil, false
 				}
-				return true
-			})
-			if minLen >= 3 && q0 && q1 && onlyConjunctions(is.Cond) {
-				okQ = true
+				ret, ok := ev.Run(qfd.Decl.Body)
+				rows++
+				want := "orig"
+				if L >= 3 && q0 && q1 {
+					want = "inner"
+				}
+				if !ok || oob || len(ret) != 1 || ret[0] != any(want) {
+					okQ = false
+				}
 			}
-			return true
-		})
+		}
+		c.Extra("unquote_rows", rows)
 		c.Ob("C06-R3", qfd.Name(), qfd.Decl.Pos(), okQ,
 			"unquote does not require both quotes around a non-empty body (length ≥ 3): the JSON token \"\" would be unquoted to an empty string, which the percentage reader accepts as 0%")
 	} else {
